@@ -107,6 +107,7 @@ class Case:
         self.irun = None
         self.irun_jenop = None
         self.imach = {}
+        self.wf = None
 
 
 def collect_cases(hlines, olines):
@@ -122,7 +123,7 @@ def collect_cases(hlines, olines):
         if len(fs) < 2:
             continue
         tag, cid = fs[0], fs[1]
-        if tag not in ("PROG", "TAG", "IMPL", "IMPLDIFF", "IREQ", "IMACH", "ISCH", "M", "MR", "SRC", "MRUN", "IRUN", "IRUNJENOP"):
+        if tag not in ("PROG", "TAG", "IMPL", "IMPLDIFF", "IREQ", "IMACH", "ISCH", "M", "MR", "WF", "SRC", "MRUN", "IRUN", "IRUNJENOP"):
             continue
         c = get(cid)
         d = kvs(fs[2:])
@@ -145,6 +146,8 @@ def collect_cases(hlines, olines):
             c.isch.append(d)
         elif tag == "M":
             c.m = l.split(" asm=", 1)[1] if " asm=" in l else ""
+        elif tag == "WF":
+            c.wf = d
         elif tag == "MR":
             c.mr = d
         elif tag == "SRC":
@@ -197,6 +200,10 @@ def judge_case(c):
     if c.m is None or c.m.startswith("!"):
         fails.append(("model-self-check", {"model": c.m}))
         return fails
+    if c.wf is not None and (c.wf.get("wf") != "1" or c.wf.get("scoped") != "1"):
+        # the hypotheses of compile_correct_wf / compile_correct_full do not hold for a generated program:
+        # the theorem says nothing about it (generator or blockLocs placement problem)
+        fails.append(("theorem-hypothesis", {"wfProg/scopedProg": c.wf}))
     if c.src is not None and c.mrun is not None and sem_verdict(c.src, c.mrun) == "differ":
         fails.append(("model-self-check", {"src": c.src, "mrun": c.mrun}))
     if c.impl is None:
@@ -655,6 +662,8 @@ def handle_case(c, src, corpus_case, twin, add_finding, stats, distinct):
     stats["schedule_runs"] += len(c.isch)
     fails = judge_case(c)
     kinds = [k for k, _ in fails]
+    if c.wf is not None and c.wf.get("wf") == "1" and c.wf.get("scoped") == "1":
+        stats["theorem_hypotheses_hold"] = stats.get("theorem_hypotheses_hold", 0) + 1
     if c.impl is not None:
         distinct.add(("prog", c.impl))
         if c.impl == c.m:
